@@ -44,7 +44,7 @@ pub struct Act {
 }
 
 fn acts_text(a: &[Act]) -> String {
-    a.iter().map(|x| if x.kind == 'i' || x.kind == 'e' || x.kind == 'b' { x.kind.to_string() } else { format!("{}{}", x.kind, x.arg) }).collect::<Vec<_>>().join(",")
+    a.iter().map(|x| if x.kind == 'i' || x.kind == 'e' || x.kind == 'b' || x.kind == 'p' { x.kind.to_string() } else { format!("{}{}", x.kind, x.arg) }).collect::<Vec<_>>().join(",")
 }
 fn acts_parse(s: &str) -> Vec<Act> {
     s.split(',')
@@ -68,6 +68,8 @@ pub struct Stage {
     pub w1: Vec<Act>,
     pub w2: Vec<Act>,
     pub ambient: Ambient,
+    /// the stream ends exactly at this absolute offset (systematic truncation sweep)
+    pub eof_at: Option<usize>,
 }
 
 #[derive(Clone, Debug)]
@@ -100,6 +102,7 @@ impl Stage {
             "read": acts_text(&self.read), "flips": self.flips.iter().map(|(o, x)| json!([o, x])).collect::<Vec<_>>(),
             "w1": acts_text(&self.w1), "w2": acts_text(&self.w2),
             "ambient": self.ambient.to_json(),
+            "eof_at": self.eof_at,
         })
     }
     fn from_json(v: &Value) -> Option<Stage> {
@@ -117,6 +120,7 @@ impl Stage {
             w1: acts_parse(v.get("w1")?.as_str()?),
             w2: acts_parse(v.get("w2")?.as_str()?),
             ambient: v.get("ambient").and_then(Ambient::from_json).unwrap_or_default(),
+            eof_at: v.get("eof_at").and_then(|e| e.as_u64()).map(|e| e as usize),
         })
     }
 }
@@ -276,7 +280,7 @@ fn gen_stage(rng: &mut Rng, corpus: &Corpus, second: bool) -> Stage {
     }
     let w2 = if rng.chance(1, 6) { transparent_script(rng, 6) } else { Vec::new() };
     let ambient = Ambient::draw(rng);
-    Stage { rule_text, data_text, form, sep, read, flips, w1, w2, ambient }
+    Stage { rule_text, data_text, form, sep, read, flips, w1, w2, ambient, eof_at: None }
 }
 
 pub fn gen_case(seed: u64, profile: &str, corpus: &Corpus) -> Case {
@@ -384,6 +388,9 @@ pub fn run_stage(env: &Env, profile: &str, stage: &Stage, budget: u64) -> StageR
     if !stage.w1.is_empty() {
         cmd.env("SIMIO_W1", acts_text(&stage.w1));
     }
+    if let Some(n) = stage.eof_at {
+        cmd.env("SIMIO_EOF_AT", n.to_string());
+    }
     if !stage.w2.is_empty() {
         cmd.env("SIMIO_W2", acts_text(&stage.w2));
     }
@@ -451,6 +458,9 @@ pub fn intended_bytes(stage: &Stage, res: Option<&StageResult>) -> Option<Vec<u8
         if *off < bytes.len() {
             bytes[*off] ^= *x;
         }
+    }
+    if let Some(n) = stage.eof_at {
+        bytes.truncate(n);
     }
     if stage.read.iter().any(|a| a.kind == 'x') {
         // the error fires only if the process gets that far; if it reached EOF earlier the script's
@@ -540,7 +550,7 @@ pub fn unconstrained(stage: &Stage, res: &StageResult) -> bool {
 }
 
 pub fn has_faults(stage: &Stage) -> bool {
-    !stage.read.is_empty() || !stage.flips.is_empty() || !stage.w1.is_empty() || !stage.w2.is_empty() || !stage.ambient.is_default()
+    stage.eof_at.is_some() || !stage.read.is_empty() || !stage.flips.is_empty() || !stage.w1.is_empty() || !stage.w2.is_empty() || !stage.ambient.is_default()
 }
 
 pub fn judge_stage(stage_no: usize, stage: &Stage, res: &StageResult, expect: &Expect, op: &Option<Op>, budget: u64) -> Vec<Violation> {
@@ -784,6 +794,80 @@ pub fn run_case(env: &Env, case: &Case, oracle: &mut Oracle) -> (Vec<Violation>,
 }
 
 // ---------------------------------------------------------------------------------------------
+// systematic sweeps (thorough tier): every truncation point, every single-EINTR / single-EIO position,
+// byte-by-byte delivery in both directions — for one sampled case
+// ---------------------------------------------------------------------------------------------
+
+pub fn sweep_case(env: &Env, case: &Case, oracle: &mut Oracle) -> (Vec<(Case, Violation)>, u64, CaseStats) {
+    let mut out = Vec::new();
+    let mut points = 0u64;
+    let mut stats = CaseStats::default();
+    let mut base = case.stage1.clone();
+    if base.form == Form::Arg {
+        base.form = Form::StdinDash;
+    }
+    base.read.clear();
+    base.flips.clear();
+    base.w1.clear();
+    base.w2.clear();
+    base.ambient = Ambient::default();
+    base.eof_at = None;
+    let len = base.data_text.len();
+    let mut variants: Vec<Stage> = Vec::new();
+    // the producer dies after exactly p bytes, for every p
+    let step = (len / 400).max(1);
+    let mut p = 0;
+    while p <= len {
+        let mut s = base.clone();
+        s.eof_at = Some(p);
+        variants.push(s);
+        p += step;
+    }
+    // one EINTR / one EIO at the j-th read, for every j the process can reach (32-byte probe + doubling)
+    let reads = 4 + len / 24;
+    for j in 0..reads.min(64) {
+        for kind in ['i', 'x'] {
+            let mut s = base.clone();
+            s.read = (0..j).map(|_| Act { kind: 'p', arg: 0 }).collect();
+            s.read.push(Act { kind, arg: if kind == 'x' { 5 } else { 0 } });
+            variants.push(s);
+        }
+    }
+    // one byte per read; one byte per write
+    let mut s = base.clone();
+    s.read = (0..(len + 4).min(4000)).map(|_| Act { kind: 'k', arg: 1 }).collect();
+    variants.push(s);
+    let mut s = base.clone();
+    s.w1 = (0..4000).map(|_| Act { kind: 'k', arg: 1 }).collect();
+    s.w2 = (0..2000).map(|_| Act { kind: 'k', arg: 1 }).collect();
+    variants.push(s);
+    // EINTR before every write
+    let mut s = base.clone();
+    s.w1 = (0..64).flat_map(|_| [Act { kind: 'i', arg: 0 }, Act { kind: 'p', arg: 0 }]).collect();
+    variants.push(s);
+    for st in variants {
+        let c = Case { seed: case.seed, profile: case.profile.clone(), stage1: st, stage2: None };
+        let (v, cs) = run_case(env, &c, oracle);
+        points += 1;
+        stats.stages += cs.stages;
+        stats.syscalls += cs.syscalls;
+        for (k, n) in &cs.fired {
+            bump(&mut stats.fired, k, *n);
+        }
+        for (k, n) in &cs.probes {
+            bump(&mut stats.probes, k, *n);
+        }
+        for x in v {
+            out.push((c.clone(), x));
+        }
+        if out.len() > 4 {
+            break;
+        }
+    }
+    (out, points, stats)
+}
+
+// ---------------------------------------------------------------------------------------------
 // minimisation
 // ---------------------------------------------------------------------------------------------
 
@@ -976,6 +1060,9 @@ pub fn main(a: &Args) -> i32 {
     let det_every = a.u64("determinism-every", 0);
     let max_shrunk = a.u64("max-shrunk", 3);
     let max_violations = a.u64("max-violations", 6) as usize;
+    let sweep_every = a.u64("sweep-every", 0);
+    let mut sweeps = 0u64;
+    let mut sweep_points = 0u64;
     let started = Instant::now();
     let env = env_from(a);
 
@@ -1003,7 +1090,24 @@ pub fn main(a: &Args) -> i32 {
         let mut prof_rng = Rng::new(prng::mix(case_seed, &[0x9f0f]));
         let profile = profiles[prof_rng.below(profiles.len())].clone();
         let case = gen_case(case_seed, &profile, &corpus);
-        let (found, st) = run_case(&env, &case, &mut oracle);
+        let (mut found_all, st) = {
+            let (f, st) = run_case(&env, &case, &mut oracle);
+            (f.into_iter().map(|v| (case.clone(), v)).collect::<Vec<_>>(), st)
+        };
+        if sweep_every > 0 && runs % sweep_every == 0 && case.stage1.data_text.len() <= 1500 && std::str::from_utf8(&case.stage1.data_text).is_ok() {
+            let (more, points, cs) = sweep_case(&env, &case, &mut oracle);
+            sweeps += 1;
+            sweep_points += points;
+            stats.stages += cs.stages;
+            stats.syscalls += cs.syscalls;
+            for (k, n) in &cs.fired {
+                bump(&mut stats.fired, k, *n);
+            }
+            for (k, n) in &cs.probes {
+                bump(&mut stats.probes, k, *n);
+            }
+            found_all.extend(more);
+        }
         if det_every > 0 && runs % det_every == 0 {
             det_checked += 1;
             let (_, st2) = run_case(&env, &case, &mut oracle);
@@ -1045,7 +1149,7 @@ pub fn main(a: &Args) -> i32 {
         if samples.len() < 3 && has_faults(&case.stage1) && case.stage1.form != Form::Arg {
             samples.push(case.to_json());
         }
-        for v in found {
+        for (case, v) in found_all {
             let sig = format!("{}/{}", v.property, v.class);
             let sig_full = v.signature();
             if !seen.insert(sig_full) {
@@ -1078,7 +1182,8 @@ pub fn main(a: &Args) -> i32 {
     let _ = std::fs::write(&nt_path, bytes);
     let summary = json!({
         "engine": "e2", "worker": worker, "runs": runs,
-        "sums": {"stages": stats.stages, "intercepted_syscalls": stats.syscalls, "unconstrained_output_device_failures": stats.unconstrained},
+        "sums": {"stages": stats.stages, "intercepted_syscalls": stats.syscalls, "unconstrained_output_device_failures": stats.unconstrained,
+                 "systematic_sweeps": sweeps, "systematic_sweep_points": sweep_points},
         "forms": forms, "faults_fired": stats.fired, "outcomes": stats.outcome, "probes": stats.probes,
         "determinism": {"checked": det_checked, "mismatches": det_mismatch},
         "oracle": {"forks": oracle.forks, "queries": oracle.queries},
